@@ -5,6 +5,7 @@ Proof/EscapeRoundTrip.lean and Proof/EscapeYq.lean.  Strings are lists of Unicod
 `decode` is the RFC 8259 §7 string-body decoder of Model/Escape.lean.
 -/
 import SuccinctlyVerif.Proof.EscapeYq
+import SuccinctlyVerif.Generated.C09
 namespace SV.Props.C09
 open SV SV.Utf8 SV.Escape
 
@@ -105,5 +106,15 @@ theorem roundtrip_yq (s : List Nat) (hs : ∀ c ∈ s, isScalar c = true) :
     decode_flatMap yqChar yqChar_decodable yqChar_ne_nil s hs⟩
 
 example : decode (writeJqAscii [0x1F600, 0x22, 0x8]) = some [0x1F600, 0x22, 0x8] := by decide
+
+/-- The lane DAGs of `json_avx2_mask` and `json_sse2_mask`, regenerated from
+`src/util/simd/escape.rs` on this run (Generated/C09.lean), compute for all 256 byte values the lane
+value of the hand-written `jsonMaskLane` the scanner theorems are about. -/
+theorem lanes_generated_eq :
+    (∀ c : BitVec 8, Gen.json_avx2_mask_ret_lane c = jsonMaskLane c) ∧
+    (∀ c : BitVec 8, Gen.json_sse2_mask_ret_lane c = jsonMaskLane c) := by
+  constructor <;> decide
+
+example : Gen.json_avx2_mask_ret 0x1F#8 = true ∧ Gen.json_avx2_mask_ret 0x20#8 = false := by decide
 
 end SV.Props.C09
